@@ -30,7 +30,8 @@ def dec_config():
 
 
 FAULTS = ('truncated-record', 'oversized-length', 'undecodable-mti', 'unknown-bit', 'bad-field-length', 'bad-typed-value',
-          'bad-pds', 'bad-icc', 'short-message', 'short-message-empty-bitmap', 'bare-mti', 'bad-decimal')
+          'bad-pds', 'bad-icc', 'short-message', 'short-message-empty-bitmap', 'bare-mti', 'bad-decimal', 'last-element-cut-short',
+          'last-length-overstated')
 
 
 def owner(clause):
@@ -70,6 +71,11 @@ def inject(rec, kind, enc, r):
     elif kind == 'bad-decimal':
         q = 20 + 18 + 6 + 12               # element 5 follows DE2 (2 + 16), DE3 (6), DE4 (12)
         x[q + 3:q + 10] = 'garbage'.encode(enc)
+    elif kind == 'last-element-cut-short':
+        x = x[:-2]                         # the final (fixed-width) element is two bytes short
+    elif kind == 'last-length-overstated':
+        x = x[:-8]                         # drop the final fixed element DE71 but leave its bit on ...
+        # (the reading needs 8 more bytes than the record holds)
     elif kind == 'short-message':
         x = x[:11]
     elif kind == 'short-message-empty-bitmap':
